@@ -192,6 +192,32 @@ func init() {
 	register(&Stream{
 		Name: "sem",
 		Skip: vmSkip,
+		Replay: func(line string) (string, error) {
+			// sem <fuel> <ast> <globals> <args;...> #<hex of the source>
+			f := strings.Split(line, "\t")
+			if len(f) < 6 || !strings.HasPrefix(f[len(f)-1], "#") {
+				return "", fmt.Errorf("bad sem line")
+			}
+			src, err := semHexDecode(strings.TrimPrefix(f[len(f)-1], "#"))
+			if err != nil {
+				return "", err
+			}
+			var args []ugo.Object
+			if f[4] != "" {
+				for _, a := range strings.Split(f[4], ";") {
+					o, err := codec.Decode(a, func(tn string, id int) ugo.Object { return ugo.Undefined })
+					if err != nil {
+						return "", err
+					}
+					args = append(args, o)
+				}
+			}
+			bc, err := ugo.Compile(src, ugo.CompilerOptions{NoOptimize: true})
+			if err != nil {
+				return "", err
+			}
+			return runPlain(bc, ugo.Map{}, args), nil
+		},
 		Run: func(c *Ctx) {
 			c.Rule("random scripts (gen.Program; flavours: general, try-heavy, call-heavy, try enumeration, self tail calls, the complete call-binding enumeration (params 0..3 x variadic x explicit args 0..4 x spread none/0..4 x 5 call positions), chains of sibling closures) run by the implementation (compiler+VM, optimizer off) vs the reference semantics Spec/Sem on the same AST: outcome and final globals (side-effect log); also optimizer on at limits {default,1,3} vs off (C01); distinct = distinct (outcome class, outcome hash)")
 			semRun(c, "general", 700*c.Scale, "C02")
